@@ -30,9 +30,10 @@ EXPLANATION = (
     "GUARD-3: the ratio handed to update_greens_function_vmap (the divisor of the rank-one update, also multiplied into "
     "the cached overlap the next importance ratio divides by) is not a clipped value where(r < eps, 0, r): a walker killed "
     "inside the sweep would get 0 there, an inf / NaN Green's function, a cached overlap 0 and the weight 0 * inf = NaN. "
-    "One obligation per update, keyed by the function containing the code and the position of the update in the sequence "
-    "the step issues. On the pinned tree all six updates of the fast CPMC step functions fail it: known finding D8 "
-    "(known_findings.json, demos in findings/D8), printed as KNOWN-FINDING, exit 0. "
+    "One obligation per step function (the updates it issues are listed in the message), so that refactorings inside the "
+    "function keep the finding what it is. On the pinned tree all six updates of the two fast CPMC step functions "
+    "(propagator_cpmc.propagate: 1, propagator_cpmc_nn.propagate: 5) fail it: known finding D8 (known_findings.json, demos in "
+    "findings/D8), printed as two KNOWN-FINDING lines, exit 0. "
 )
 NOT_DECIDED = (
     "finiteness over long histories beyond GUARD-3 (overflow of the fast update for walkers with a vanishing but non-zero "
@@ -55,6 +56,7 @@ def _divisor_not_clipped(ctx, P, step, run_):
         return
     done.add(step.qualname)
     k = 0
+    bad = []
     for e in run_.events:
         if e.kind != "call":
             continue
@@ -68,14 +70,21 @@ def _divisor_not_clipped(ctx, P, step, run_):
         w = m_where(ratios)
         arms = [strip_wrappers(w[1]), strip_wrappers(w[2])] if w is not None else [ratios]
         clipped = [a for a in arms if zero_guard(a) is not None and zero_guard(a)[0] in ("<", "<=")]
-        ctx.rep.ob("GUARD-3", f"{step.qualname}: Green's-function update #{k} divides by a ratio that cannot be exactly 0",
-                   not clipped,
-                   "ratio of the selected field as computed" if not clipped else
-                   f"the ratio handed to update_greens_function_vmap (and multiplied into the cached overlaps) is the "
-                   f"clipped one, {show(clipped[0], maxdepth=2)[:70]}: a walker killed in this block gets 0, its Green's "
-                   f"function inf / NaN, its cached overlap 0, and its weight 0 * inf = NaN at the next importance ratio",
-                   e.frame.mod.path, e.line)
+        if clipped:
+            bad.append((k, e.line, clipped[0]))
         k += 1
+    if k == 0:
+        return
+    # one judgement per step function (its updates are listed in the message): refactorings inside the function --
+    # blocks merged into a loop, moved into a helper, split -- do not change what the finding is about
+    ctx.rep.ob("GUARD-3", f"{step.qualname}: no Green's-function update divides by a ratio that can be exactly 0",
+               not bad,
+               f"{k} update(s), each with the ratio of the selected field as computed" if not bad else
+               f"{len(bad)} of {k} update(s) (#{', #'.join(str(b_[0]) for b_ in bad)}; lines {', '.join(str(b_[1]) for b_ in bad)}) hand "
+               f"the clipped ratio {show(bad[0][2], maxdepth=2)[:60]} to update_greens_function_vmap and multiply it into the cached "
+               f"overlaps: a walker killed in such a block gets 0, its Green's function inf / NaN, its cached overlap 0, and its "
+               f"weight 0 * inf = NaN at the next importance ratio",
+               run_.frame.mod.path, bad[0][1] if bad else step.lineno)
 
 
 def run(ctx):
